@@ -187,7 +187,9 @@ func (c *cutReader) Close() error {
 //	nostream-flat      no package.yaml anywhere                                (invalid)
 //	empty              image without layers                                    (invalid)
 var validLayouts = []string{"annotated", "annotated", "annotated-decoy", "annotated-extra", "flat", "flat", "flat-override", "flat-otheranno"}
-var invalidLayouts = []string{"multi-same", "multi-diff", "multi-diff", "nostream-annotated", "nostream-flat", "empty"}
+//	annotated-substituted  the manifest names the base layer of the package; the registry serves
+//	                   other bytes for that blob (another package.yaml)        (invalid)
+var invalidLayouts = []string{"multi-same", "multi-diff", "multi-diff", "nostream-annotated", "nostream-flat", "empty", "annotated-substituted"}
 
 func layoutClass(l string) string {
 	switch l {
@@ -199,6 +201,8 @@ func layoutClass(l string) string {
 		return "multi-annotated"
 	case "built-raw", "built-annotated", "built-tarball":
 		return l
+	case "annotated-substituted":
+		return "substituted-layer"
 	}
 	return "no-stream-file"
 }
@@ -209,9 +213,22 @@ func layoutReason(l string) string {
 		return "multi-annotated"
 	case "no-stream-file":
 		return "no-stream-file"
+	case "substituted-layer":
+		return "layer-bytes-do-not-match-the-manifest-digest"
 	}
 	return ""
 }
+
+// substitutedLayer is a blob whose descriptor (digest, diff id, size - what the image manifest
+// says, and what a signature covers) belongs to one layer while the bytes the registry serves
+// for it are another's: a broken mirror, a corrupted blob store, somebody in the path.
+type substitutedLayer struct {
+	ggcr.Layer // the layer the manifest describes
+	served     ggcr.Layer
+}
+
+func (l substitutedLayer) Compressed() (io.ReadCloser, error)   { return l.served.Compressed() }
+func (l substitutedLayer) Uncompressed() (io.ReadCloser, error) { return l.served.Uncompressed() }
 
 type builtImage struct {
 	img       ggcr.Image
@@ -304,6 +321,10 @@ func buildImage(r *rand.Rand, layout string, stream, decoy []byte) *builtImage {
 			img = add(img, decoyLayer(), base)
 			img = add(img, streamLayer(), base)
 		}
+	case "annotated-substituted":
+		genuine, _ := tarOf(withExtras(stream))
+		other, _ := tarOf([]tarFile{{Name: streamFile, Data: decoy}})
+		img = add(img, substitutedLayer{Layer: layerOf(genuine), served: layerOf(other)}, base)
 	case "nostream-annotated":
 		b, _ := tarOf([]tarFile{{Name: "crossplane.yaml", Data: stream}})
 		img = add(img, layerOf(b), base)
